@@ -12,6 +12,7 @@ import qstrader.statistics.performance as perf
 RET = z3.Function('OBSERVATION', z3.IntSort(), R)          # the series of (cumulative) returns
 RUNMAX = z3.Function('RUNNING_MAXIMUM', z3.IntSort(), R)   # ghost: max of observations 0..j, INCLUDING the first
 LOOP = 'create_drawdowns#for range(1, len(_))#0'
+LOOP_HOISTED = 'create_drawdowns#for range(1, _)#0'       # the same loop with the length bound to a local first
 
 
 def runmax_def(j):
@@ -35,6 +36,16 @@ class HwmLoop:
     def __init__(self, G, lid, it, env):
         self.G, self.n = G, lift(it.hi)
         self.lo = lift(it.lo)
+        self.arr = None
+
+    def _name(self, env, state=None):
+        """the ONE array the loop carries, whatever the code calls it"""
+        if self.arr is None:
+            cands = [n for n in (state if state else env) if isinstance(env.get(n), SymArr)]
+            if len(cands) != 1:
+                raise heap.Unmodelled('high-water-mark loop: expected exactly one carried array, found %s' % (cands,))
+            self.arr = cands[0]
+        return self.arr
 
     def inv(self, hwm, t, pts):
         return [z3.And(t >= 1, z3.ToReal(t) <= self.n)] + \
@@ -42,20 +53,21 @@ class HwmLoop:
 
     def havoc(self, env, names, state=()):
         c, G = ctx(), self.G
-        heap.check_state(LOOP, state, ('hwm',))
+        a = self._name(env, state)
+        heap.check_state(LOOP, state, (a,))
         c.assume(runmax_def(z3.IntVal(0)))
         c.assume(runmax_def(G.j0))
         if not bool(SymBool(self.lo == 1)):
             raise heap.Unmodelled('loop does not start at 1')
-        for f in self.inv(env['hwm'], z3.IntVal(1), [G.j0, z3.IntVal(0)]):
+        for f in self.inv(env[self._name(env)], z3.IntVal(1), [G.j0, z3.IntVal(0)]):
             c.ob('#hwm-loop:init', f, kind='A')
         self.t = c.fresh('t', z3.IntSort())
-        new = SymArr(c.fresh('hwm', z3.ArraySort(z3.IntSort(), R)), env['hwm'].n)
-        return tuple(new if n == 'hwm' else env.get(n) for n in names)
+        new = SymArr(c.fresh('hwm', z3.ArraySort(z3.IntSort(), R)), env[self._name(env)].n)
+        return tuple(new if n == a else env.get(n) for n in names)
 
     def more(self, env):
         c = ctx()
-        for f in self.inv(env['hwm'], self.t, [self.G.j0, self.t - 1, z3.IntVal(0)]):
+        for f in self.inv(env[self._name(env)], self.t, [self.G.j0, self.t - 1, z3.IntVal(0)]):
             c.assume(f)
         d = c.decide(z3.ToReal(self.t) < self.n)
         if not d:
@@ -69,13 +81,13 @@ class HwmLoop:
     def preserved(self, env):
         c = ctx()
         c.ob('#hwm-loop:kernel/high-water-mark-is-running-maximum-including-first-observation',
-             z3.Select(env['hwm'].arr, self.t) == RUNMAX(self.t), kind='P')
-        for f in self.inv(env['hwm'], self.t + 1, [self.G.j0, z3.IntVal(0)]):
+             z3.Select(env[self._name(env)].arr, self.t) == RUNMAX(self.t), kind='P')
+        for f in self.inv(env[self._name(env)], self.t + 1, [self.G.j0, z3.IntVal(0)]):
             c.ob('#hwm-loop:preserved', f, kind='A')
         raise Abort()
 
     def exit(self, env, names):
-        self.G.hwm = env['hwm']
+        self.G.hwm = env[self._name(env)]
         return tuple(env.get(n) for n in names)
 
 
@@ -88,7 +100,7 @@ def hwm_loop(c):
     c.assume(n >= 1)
     G.j0 = c._const('j', z3.IntSort())
     G.hwm = None
-    heap.LOOPSPEC[LOOP] = lambda lid, it, env: HwmLoop(G, lid, it, env)
+    heap.LOOPSPEC[LOOP] = heap.LOOPSPEC[LOOP_HOISTED] = lambda lid, it, env: HwmLoop(G, lid, it, env)
     try:
         try:
             perf.create_drawdowns(_Series(SymNum(z3.ToReal(n))))
@@ -97,6 +109,7 @@ def hwm_loop(c):
             reached = True
     finally:
         heap.LOOPSPEC.pop(LOOP, None)
+        heap.LOOPSPEC.pop(LOOP_HOISTED, None)
     c.ob('loop-completes-and-hands-over-to-the-vectorised-part', reached and G.hwm is not None, kind='A')
     if G.hwm is not None:
         j = G.j0
